@@ -25,6 +25,7 @@ def run_suite(tier, seed, force=False):
     cdir = os.path.join(OUT, 'cache', key)
     rpath = os.path.join(cdir, 'sd-result.json')
     if os.path.exists(rpath) and not force:
+        os.utime(cdir)
         return json.load(open(rpath))
     t0 = time.time()
     build_harness()
